@@ -120,7 +120,27 @@ impl Prop for C05 {
         "cases = (RSQVector256|RSQVector512, construction path with carrier integer type, quaternary content from explicit/weighted/run/periodic/rare-symbol/late-symbol generators, query plan seed); non-trivial = n > 256 and >= 2 symbols present; distinct = hash of the whole case"
     }
     fn sample(&self, c: &QuadCase) -> Value { abbreviate_quads(c) }
+    /// Enumerated: vectors in which the distance between two consecutive select samples of one
+    /// symbol takes every value from 4 to 2^8 + 8 superblocks (2048 symbols for RSQVector256, 4096
+    /// for RSQVector512), with select queried around every sample. The generated cases stop at
+    /// 10^6 (quick) symbols, where a sample pair is at most a few dozen superblocks apart unless
+    /// the symbol is rare; a span of a particular length (a table size, a byte) is never produced
+    /// on purpose there.
+    fn fixed_cases(&self, tier: Tier) -> Vec<QuadCase> {
+        let mut v = vec![
+            QuadCase { kind: QuadKind::Rs256, how: QuadHow::FromQVector(IntTy::U8), content: QuadContent::SampleGaps { s: 2, bg: 0, unit: 2048, gmin: 4, gmax: 264, off: 0, stride: 1 }, salt: 0, plan_seed: 71 },
+            QuadCase { kind: QuadKind::Rs512, how: QuadHow::FromQVector(IntTy::U8), content: QuadContent::SampleGaps { s: 1, bg: 3, unit: 2048, gmin: 4, gmax: 200, off: 1000, stride: 2 }, salt: 0, plan_seed: 72 },
+        ];
+        if tier == Tier::Thorough {
+            v.push(QuadCase { kind: QuadKind::Rs512, how: QuadHow::FromQVector(IntTy::U8), content: QuadContent::SampleGaps { s: 3, bg: 1, unit: 4096, gmin: 2, gmax: 264, off: 0, stride: 1 }, salt: 0, plan_seed: 73 });
+            v.push(QuadCase { kind: QuadKind::Rs256, how: QuadHow::FromQVector(IntTy::U8), content: QuadContent::SampleGaps { s: 0, bg: 2, unit: 2048, gmin: 200, gmax: 330, off: 77, stride: 1 }, salt: 0, plan_seed: 74 });
+        }
+        v
+    }
     fn simplify(&self, c: &QuadCase) -> Vec<QuadCase> {
+        if matches!(c.content, QuadContent::SampleGaps { .. }) {
+            return vec![]; // tens of millions of symbols: reported as it is
+        }
         simplify_quads(&c.content).into_iter().map(|content| QuadCase { content, ..c.clone() }).collect()
     }
     fn run(&self, c: &QuadCase, ctx: &mut Ctx) -> CheckResult {
@@ -132,7 +152,7 @@ impl Prop for C05 {
         ctx.label(&format!("content={}", crate::util::variant_name(&c.content)));
         label_quads(&m, ctx);
         ctx.nontrivial = m.n() > 256 && (0..4).filter(|&s| m.occs(s) > 0).count() >= 2;
-        check_quads(&v, &m, c.plan_seed, QuadOpts { unchecked: false, budget: if ctx.thorough { 80 } else { 50 }, iterators: m.n() <= 300_000 }, ctx)
+        check_quads(&v, &m, c.plan_seed, QuadOpts { unchecked: false, budget: if ctx.thorough { 80 } else { 50 }, iterators: m.n() <= 300_000, all_samples: matches!(c.content, QuadContent::SampleGaps { .. }) }, ctx)
     }
 }
 
